@@ -46,8 +46,9 @@ type recMsg struct {
 }
 
 type recorder struct {
-	mu   sync.Mutex
-	msgs []recMsg
+	mu    sync.Mutex
+	msgs  []recMsg
+	delay time.Duration // a slow consumer: every message takes that long
 }
 
 var _ logs.Loggers = (*recorder)(nil)
@@ -63,6 +64,9 @@ func (l *recorder) record(isErr bool, args []interface{}) {
 		m.text = m.first
 	} else {
 		m.text = fmt.Sprint(args...)
+	}
+	if l.delay > 0 {
+		time.Sleep(l.delay)
 	}
 	l.mu.Lock()
 	m.seq = len(l.msgs)
@@ -176,7 +180,7 @@ func (m *monitor) run(cs *caseSpec) *runResult {
 	res.tokStart = "<<C18 start message of " + tag + ">>"
 	res.tokOK = "<<C18 success message of " + tag + ">>"
 	res.tokFail = "<<C18 failure message of " + tag + ">>"
-	rec := &recorder{}
+	rec := &recorder{delay: time.Duration(cs.SinkUS) * time.Microsecond}
 	args := []string{emitFlag, scriptPath}
 	ctx := context.Background()
 
